@@ -4,6 +4,7 @@ satisfiability oracle and compared with the optimum computed by enumeration with
 independent evaluator native/refeval.py.  Labelled bounded, never counted as proved."""
 import itertools
 import random
+from fractions import Fraction
 import warnings
 
 from pysmt.typing import BOOL, INT, BVType
@@ -252,7 +253,8 @@ class Problem:
             return self.goal(False)
         g = MaxSMTGoal(real_weights=not integer_weights)
         for _ in range(rng.randint(1, 4)):
-            g.add_soft_clause(self.formula(1), rng.randint(1, 4))
+            w = rng.randint(1, 4)
+            g.add_soft_clause(self.formula(1), w if integer_weights else Fraction(w, rng.choice([1, 2, 3])))
         return g
 
 
@@ -293,7 +295,8 @@ def run_one(env, rng, trial):
         asserts.append(f)
     ngoals = 1 if mode == "single" else rng.randint(1, 3)
     maxsmt_ok = mode in ("single", "boxed")
-    goals = [P.goal(maxsmt_ok, integer_weights=True) for _ in range(ngoals)]
+    # real-valued weights only with linear search (bisection over real-valued objectives is outside the property)
+    goals = [P.goal(maxsmt_ok, integer_weights=not (strategy == "linear" and rng.random() < 0.5)) for _ in range(ngoals)]
     label = "%s/%s/%s/%s/%s goals=%s asserts=%s" % (cls.__name__, strategy, mode, kind, order, goals,
                                                     [f.serialize() for f in asserts])
     # ---- reference ------------------------------------------------------------
@@ -432,7 +435,7 @@ def optimizer_check(tier, seed):
             samples.append(label[:300])
     return {"name": "optimizer", "bounded": True, "evaluations": n, "distinct_nontrivial": nontriv,
             "rule": "%d random problems over 2 Bool + 2 BV(2|3) or 2 Int in [-3,4] symbols, assertions at up to 2 pushed levels, "
-                    "objectives Int / signed / unsigned BV terms, min-max / max-min over 1-3 terms, integer-weighted soft clauses; "
+                    "objectives Int / signed / unsigned BV terms, min-max / max-min over 1-3 terms, soft clauses with integer weights (rational weights too under linear search); "
                     "{assumption-based, incremental} x {linear, binary} x {single, boxed, lexicographic, Pareto} (%d of 16 "
                     "combinations reached); oracle = exhaustive enumeration in ascending / descending / random order; result "
                     "compared with the optimum by enumeration, stack / levels / pending flag compared before and after"
